@@ -440,7 +440,7 @@ theorem findForward_spec (n fuel : Nat) (hL : ∀ k, LvlOK n k (L k)) (p : Cfg) 
 
 /-- digit bounds: every level's outputs are ≤ B k -/
 structure LvlBound (B : Nat → Nat) (k : Nat) (l : Lvl) : Prop where
-  next_le : ∀ c v, (l.next c v).1 ≤ B k
+  next_le : ∀ c v, v ≤ B k → (l.next c v).1 ≤ B k
   rst_le : ∀ c, l.rst c ≤ B k
 
 def InBox (B : Nat → Nat) (n : Nat) (c : Cfg) : Prop := ∀ k, k < n → c k ≤ B k
@@ -468,22 +468,23 @@ theorem InBox_overflowFrom (B : Nat → Nat) (n : Nat) (hB : ∀ k, LvlBound B k
     have hk : ¬ k ≥ n := by omega
     unfold overflowFrom
     simp only [hk, if_false]
-    have hset := InBox_set B n c k _ h ((hB k).next_le c (c k))
+    have hset := InBox_set B n c k _ h ((hB k).next_le c (c k) (h k (by omega)))
     split
     · exact ih (k+1) _ hset (by omega)
     · exact InBox_resetFrom L B n hB k _ hset
 
-theorem InBox_advFrom (B : Nat → Nat) (n : Nat) (hB : ∀ k, LvlBound B k (L k)) (m : Nat) (c : Cfg)
+theorem InBox_advFrom (B : Nat → Nat) (n : Nat) (hB : ∀ k, LvlBound B k (L k)) (m : Nat) (hmn : m ≤ n) (c : Cfg)
     (h : InBox B n c) : ∀ r, advFrom L D n m c = some r → InBox B n r.1 := by
   induction m with
   | zero => intro r hr; simp [advFrom] at hr
   | succ m ih =>
+    have ih := ih (by omega)
     intro r hr
     unfold advFrom at hr
     split at hr
     · exact ih r hr
     · have hr := Option.some.inj hr
-      have hset := InBox_set B n c m _ h ((hB m).next_le c (c m))
+      have hset := InBox_set B n c m _ h ((hB m).next_le c (c m) (h m (by omega)))
       have hrs := InBox_resetFrom L B n hB m _ hset
       rw [← hr]
       split
@@ -513,7 +514,7 @@ theorem loop_fuel (B : Nat → Nat) (n : Nat) (hL : ∀ k, LvlOK n k (L k)) (hB 
       | false =>
         simp only
         obtain ⟨hLB', hlt'⟩ := hs.2.1 c' hadv
-        have hbox' : InBox B n c' := InBox_advFrom L D B n hB n c hbox (c', false) hadv
+        have hbox' : InBox B n c' := InBox_advFrom L D B n hB n (Nat.le_refl _) c hbox (c', false) hadv
         have h1 := hμ.mono c c' hbox hbox' hlt'
         have h2 := hμ.le c' hbox'
         exact ih c' hbox' hLB' (by omega)
@@ -523,9 +524,9 @@ def μ6 (c : Cfg) : Nat :=
   ((((c 5 * 13 + c 4) * 32 + c 3) * 24 + c 2) * 60 + c 1) * 60 + c 0
 
 def B6 : Nat → Nat
-  | 0 => 59 | 1 => 59 | 2 => 23 | 3 => 31 | 4 => 12 | 5 => 2262 | _ => 0
+  | 0 => 59 | 1 => 59 | 2 => 23 | 3 => 31 | 4 => 12 | 5 => 3940 | _ => 0
 
-theorem μ6_measure : Measure B6 6 μ6 (((((2262 * 13 + 12) * 32 + 31) * 24 + 23) * 60 + 59) * 60 + 59) := by
+theorem μ6_measure : Measure B6 6 μ6 (((((3940 * 13 + 12) * 32 + 31) * 24 + 23) * 60 + 59) * 60 + 59) := by
   constructor
   · intro c c' h h' hlt
     obtain ⟨k, hk, hlt, hag⟩ := hlt
